@@ -168,7 +168,7 @@ def execute(case):
         def observe(field, t):
             k = counter[0]
             counter[0] += 1
-            rec["trace"].append((idx, float(t), float(field.data.flat[0]), type(t).__name__))
+            rec["trace"].append((idx, float(t), float(np.real(field.data.flat[0])), type(t).__name__))
             if k in stops:
                 kind, msg = stops[k]
                 rec["raised"].append((idx, k, float(t), kind, msg))
@@ -185,7 +185,7 @@ def execute(case):
         if kind == "data":
             def cbd(field, t):
                 observe(field, t)
-                return float(field.data.flat[0])
+                return float(np.real(field.data.flat[0]))
             return C["RecData"](cbd, interrupts=intr)
         if kind == "storage":
             first = [True]
@@ -202,8 +202,10 @@ def execute(case):
         raise ValueError(kind)
 
     grid = pde.UnitGrid([case.get("cells", 1)])
-    initial = pde.ScalarField(grid, case["u0"])
+    initial = pde.ScalarField(grid, case["u0"], dtype=complex if case.get("state_complex") else None)
     eq = C["CountingPDE"](case["eq"])
+    if case.get("pde_complex"):
+        eq.complex_valued = True  # the controller then converts (and must still copy) the initial state
     out = {"error": None}
     t_range = (case["t_start"], case["t_end"])
     if case.get("t_range_scalar"):
@@ -239,11 +241,11 @@ def execute(case):
         t_final=float(info["controller"]["t_final"]),
         dt_final=float(info["solver"].get("dt") or case["dt"]),
         steps=int(info["solver"]["steps"]),
-        state=float(data.flat[0]),
-        uniform=bool(np.all(data == data.flat[0])),
+        state=float(np.real(data.flat[0])),
+        uniform=bool(np.all(data == data.flat[0]) and np.imag(data.flat[0]) == 0),
         stop_reason=str(info["controller"]["stop_reason"]),
         successful=bool(info["controller"]["successful"]),
-        initial_after=float(initial.data.flat[0]),
+        initial_after=float(np.real(initial.data.flat[0])),
         initial_uniform=bool(np.all(initial.data == initial.data.flat[0])),
         same_object=bool(final is initial or np.shares_memory(final.data, initial.data)),
         sched_log=scheds,
@@ -253,7 +255,7 @@ def execute(case):
     for tr, obj in zip(case["trackers"], handles):
         if tr["kind"] == "storage":
             out["times"].append([float(x) for x in obj.storage.times])
-            out["frames"].append([float(np.asarray(d).flat[0]) for d in obj.storage.data])
+            out["frames"].append([float(np.real(np.asarray(d).flat[0])) for d in obj.storage.data])
         elif tr["kind"] == "data":
             out["times"].append([float(x) for x in obj.times])
             out["frames"].append([float(x) for x in obj.data])
